@@ -287,7 +287,7 @@ func (e *Engine) runModel(cc *CallCtx, m *Model, name string) bool {
 
 // visibleOp implements the resting / firing protocol for a visible operation.
 func (e *Engine) visibleOp(c *Config, rest func(c *Config), enabled func(ph int) *Term, exec func(ph int) bool) bool {
-	if e.mode == "sched" {
+	if e.mode == "sched" && c.atomic == 0 {
 		if !c.fuel {
 			rest(c)
 			return false
@@ -859,6 +859,13 @@ func (e *Engine) intrinsic(cc *CallCtx, name string) bool {
 		return e.visibleOp(c, cc.rest, func(int) *Term { return TS.True }, func(int) bool { cc.finish(nil); return true })
 	case "verifObserve":
 		cc.finish(nil)
+	case "verifAtomic":
+		// run f inline: visible operations inside do not end the transition
+		c.atomic++
+		cc.finish(nil)
+		e.callValue(c, a[0], nil, func(e *Engine, c2 *Config, _ Value) { c2.atomic-- }, func(e *Engine, c2 *Config) { c2.atomic-- })
+		// callValue pushed the frame on top of the (already advanced) caller
+		return !c.g.IsFalse()
 	case "verifIsBlocked", "verifHeldBy":
 		inconclusive("intrinsic %s not implemented", name)
 	default:
